@@ -206,7 +206,9 @@ def body_cli(case, rec):
                 outs.extend([n, [r[:5] if r[0] == "F" else r for r in rows]] for n, rows in reader(f.read_text())[1])
         try:
             api = remap.run_api(case)
-            if any(len({s_.name for s_ in a.scaffolds}) != len(list(a.scaffolds)) for a in api.assemblies.values()):
+            merged = [s_.name for k_, a in api.assemblies.items() if k_ != "Primary" and getattr(a, "curated", False) for s_ in a.scaffolds] if "Primary" in api.assemblies else []
+            # (within one assembly, or across the assemblies that Primary mode writes into one all_haplotigs file)
+            if len(set(merged)) != len(merged) or any(len({s_.name for s_ in a.scaffolds}) != len(list(a.scaffolds)) for a in api.assemblies.values()):
                 # two scaffolds of one name in one output file (KF-C10-1) are read back as one object: not judged from files
                 rec.note(case, False, classes | {"duplicate_names_in_an_output_file_not_judged"})
                 return
